@@ -43,3 +43,56 @@ func H_C07_twin() {
 	H_C07_parseTotal()
 	verifrt.Assert(false, "twin")
 }
+
+// token-level inputs: the string is a concatenation of up to 4 (quick) / 5 (thorough) tokens from the
+// documented vocabulary (field prefixes, case/type directives, grouping, negation, or, quoted
+// atoms); which token stands where is a symbolic choice (case split), the pattern byte inside the
+// atoms is one of five (letter, capital, regexp metacharacters), also a case split. Whatever Parse returns converts to the wire format, decodes again,
+// prints, and is walked by query.Map without panicking; no private parser node survives.
+var c07Tokens = []string{"@", "f:@", "-", "(", ")", " or ", "case:yes ", "case:no ", "type:file ", "type:repo ", "\"@ @\"", "r:@ ", "sym:@", "lang:go ", "b:@ ", "content:@"}
+
+func H_C07_parseTokens() {
+	// two regimes: the full vocabulary with five pattern bytes for short sequences; the structural
+	// subset (atom, grouping, negation, or, one case and one type directive, one field) with the
+	// pattern byte 'a' for longer ones
+	vocab, maxTokens := c07Tokens, verifrt.Param("tokensFull", 3, 4)
+	npat := 4
+	if verifrt.Bool("structural") {
+		vocab, maxTokens, npat = []string{"@", "(", ")", "-", " or ", "case:yes ", "type:file ", "f:@"}, verifrt.Param("tokensStructural", 5, 6), 0
+	}
+	nt := verifrt.Concretize(verifrt.IntRange("tokens", 1, maxTokens))
+	pat := []byte{'a', 'A', '.', '\\', '['}[verifrt.Concretize(verifrt.IntRange("patternByte", 0, npat))]
+	var sb []byte
+	for i := 0; i < nt; i++ {
+		t := vocab[verifrt.Concretize(verifrt.IntRange("token", 0, len(vocab)-1))]
+		for j := 0; j < len(t); j++ {
+			if t[j] == '@' {
+				sb = append(sb, pat)
+			} else {
+				sb = append(sb, t[j])
+			}
+		}
+		sb = append(sb, ' ')
+	}
+	q, err := Parse(string(sb))
+	verifrt.Observe("err", err != nil)
+	if err == nil {
+		verifrt.Assert(q != nil, "Parse yields a query or an error")
+		_ = q.String()
+		Map(q, func(in Q) Q { return in })
+		p := QToProto(q)
+		verifrt.Assert(p != nil, "a parsed query converts to the wire format")
+		q2, err2 := QFromProto(p)
+		verifrt.Assert(err2 == nil && q2 != nil, "and decodes again")
+	}
+	verifrt.Reach("returned")
+}
+
+// c07Lang replaces languages.GetLanguageByNameOrAlias under the engine (go-enry's alias table is a
+// dependency whose initialisation alone costs millions of interpreter steps): "go" is known.
+func c07Lang(nameOrAlias string) (string, bool) {
+	if nameOrAlias == "go" {
+		return "Go", true
+	}
+	return "", false
+}
